@@ -23,6 +23,7 @@ import (
 	"strings"
 	"sync"
 	"sync/atomic"
+	"time"
 
 	"github.com/elastos/Elastos.ELA/common"
 	"github.com/elastos/Elastos.ELA/common/config"
@@ -189,6 +190,8 @@ type inst struct {
 	fresh bool     // the step being applied is a new transition of the search (not a replay)
 	// lastCommittee: LastCommitteeHeight seen after the previous block
 	lastCommittee uint32
+	// inert: created after the time budget ran out; does nothing
+	inert bool
 }
 
 var (
@@ -204,7 +207,32 @@ var (
 	changesWithOwed  int64
 )
 
+// scenarioDeadline: end of the running scenario's share of the run's time budget.
+var (
+	scenarioDeadline time.Time
+	expired          int32
+	replaying        bool
+)
+
+// outOfTime: the scenario's share of the time budget (or the whole budget) is used up.
+func outOfTime() bool {
+	return run.Expired() || (!scenarioDeadline.IsZero() && time.Now().After(scenarioDeadline))
+}
+
 func newInst(sc *scenario) *inst {
+	if !replaying && outOfTime() {
+		// nothing more is judged or expanded: an inert instance lets the search run out quickly
+		// (it only comes to life for the confirmation replays of a failing history)
+		atomic.StoreInt32(&expired, 1)
+		return &inst{sc: sc, inert: true}
+	}
+	return newRealInst(sc)
+}
+
+// failedKeys: histories whose last step violated a clause (mc replays them to confirm).
+var failedKeys sync.Map
+
+func newRealInst(sc *scenario) *inst {
 	in := &inst{sc: sc, w: crkit.NewWorld(sc.params()), props: map[string]*propRef{}, reqs: map[common.Uint256]string{},
 		reqA: map[common.Uint256]common.Fixed64{}, warm: true}
 	in.w.Skip = func(string) bool { return true }
@@ -223,11 +251,15 @@ func newInst(sc *scenario) *inst {
 	return in
 }
 
-func (in *inst) Close() { in.w.Close() }
+func (in *inst) Close() {
+	if in.w != nil {
+		in.w.Close()
+	}
+}
 
 func (in *inst) Ops() []string {
 	var ops []string
-	if in.dead {
+	if in.dead || in.inert || (!replaying && outOfTime()) {
 		return nil
 	}
 	for _, op := range in.sc.alphabet {
@@ -270,12 +302,27 @@ func isHex(s string) bool {
 }
 
 func (in *inst) Apply(op string) *mc.Fail {
+	key := in.sc.name + "|" + strings.Join(in.hist, ",") + "," + op
+	if in.inert {
+		if _, ok := failedKeys.Load(key); !ok {
+			in.hist = append(in.hist, op)
+			return nil
+		}
+		real := newRealInst(in.sc)
+		for _, o := range in.hist {
+			real.Apply(o)
+		}
+		*in = *real
+	}
 	// counters count transitions of the search, not their replays
-	_, again := seenTrans.LoadOrStore(in.sc.name+"|"+strings.Join(in.hist, ",")+","+op, true)
+	_, again := seenTrans.LoadOrStore(key, true)
 	in.fresh = !again
 	f := in.step(op)
 	in.fresh = false
 	in.hist = append(in.hist, op)
+	if f != nil {
+		failedKeys.Store(key, true)
+	}
 	return f
 }
 
@@ -563,6 +610,9 @@ func (in *inst) judge(op string, b *types.Block) *mc.Fail {
 }
 
 func (in *inst) Digest() string {
+	if in.inert {
+		return "inert|" + in.sc.name + "|" + strings.Join(in.hist, ",")
+	}
 	var sb strings.Builder
 	for _, l := range crkit.Canon(in.w.C) {
 		sb.WriteString(l)
@@ -636,6 +686,7 @@ func main() {
 			History []string `json:"history"`
 		}
 		r.LoadReplay(&a)
+		replaying = true
 		for _, sc := range scenarios {
 			if sc.name == a.System {
 				sc := sc
@@ -648,8 +699,20 @@ func main() {
 	}
 	total := &mc.Result{Exhaustive: true}
 	per := map[string]interface{}{}
-	for _, sc := range scenarios {
+	start := time.Now()
+	// quick: evid's own budget less a margin; thorough: the check ends itself after 25 minutes
+	budget := time.Duration(r.Pick(1100, 1500)) * time.Second
+	if b := os.Getenv("VERIF_BUDGET_S"); b != "" {
+		var n int
+		if _, err := fmt.Sscan(b, &n); err == nil && n > 0 {
+			if b := time.Duration(n) * time.Second * 9 / 10; b < budget {
+				budget = b
+			}
+		}
+	}
+	for si, sc := range scenarios {
 		sc := sc
+		scenarioDeadline = start.Add(budget * time.Duration(si+1) / time.Duration(len(scenarios)))
 		depth := sc.depth[0]
 		if r.Thorough() {
 			depth = sc.depth[1]
@@ -659,6 +722,10 @@ func main() {
 		}
 		sp := &mc.Spec{Name: sc.name, New: func() mc.Instance { return newInst(sc) }, MaxDepth: depth, MaxStates: r.Pick(0, 400000)}
 		res := mc.Explore(r, sp)
+		if atomic.SwapInt32(&expired, 0) != 0 {
+			res.Exhaustive = false
+			res.Capped = "time budget share reached: the states explored until then are fully judged, nothing was expanded afterwards"
+		}
 		total.States += res.States
 		total.Transitions += res.Transitions
 		total.Executions += res.Executions
